@@ -56,6 +56,12 @@ pub enum Shape {
     /// three buffers of 1, 2 and 1 MiB live together (4 MiB), freed in the given order: every repetition frees more
     /// than the trim threshold at the top
     Trio,
+    /// over-aligned, RANDOMLY sized, bounded live: pairs of (small pad of 8..136 bytes, block of 1..16 KiB aligned to
+    /// 32..4096); the pad shifts the raw chunk memalign obtains through every 16-byte phase relative to the alignment.
+    /// Sizes, alignments and pads are drawn afresh in EVERY repetition (an identical round can settle into exactly
+    /// fitting holes); half-way a random half of the blocks is freed and as many pairs are allocated again, so raw
+    /// chunks come out of bins and dv as well as out of top. Everything is freed at the end of the repetition.
+    AlignRand,
 }
 #[derive(Copy, Clone, PartialEq, Eq, Debug)]
 pub enum Order {
@@ -63,7 +69,8 @@ pub enum Order {
     Fifo,
     Random,
 }
-pub const SHAPES: [(&str, Shape); 11] = [
+pub const SHAPES: [(&str, Shape); 12] = [
+    ("alignrand", Shape::AlignRand),
     ("small", Shape::Small),
     ("large", Shape::Large),
     ("mixed", Shape::Mixed),
@@ -150,6 +157,12 @@ pub fn plan(shape: Shape, seed: u64, share: usize) -> Vec<Item> {
             }
         }
         Shape::VecAligned | Shape::VecShrink => {}
+        Shape::AlignRand => {
+            // only the count and the stream seed are fixed; the requests are drawn per repetition in rep_allocate
+            for _ in 0..(ALIGNRAND_PAIRS / share).max(4) {
+                v.push(Item { size: 1 + (r.next() >> 8) as usize, align: 8 });
+            }
+        }
         Shape::Trio => {
             for mib in [1usize, 2, 1] {
                 v.push(Item { size: (mib << 20) / share.min(4) + r.below(512) as usize, align: 8 });
@@ -201,6 +214,35 @@ unsafe fn touch(p: *mut u8, size: usize, tag: u8) {
     }
 }
 
+pub const ALIGNRAND_PAIRS: usize = 16;
+/// repetitions of the AlignRand shape so far (all threads): every repetition draws fresh requests
+static ALIGNRAND_ROUND: core::sync::atomic::AtomicU64 = core::sync::atomic::AtomicU64::new(0);
+
+unsafe fn alignrand_pair<H: Heap>(h: &mut H, r: &mut Prng, slots: &mut Vec<Slot>, st: &mut RepStats, live: &mut usize) {
+    let x = r.next();
+    let pad = 8 + 16 * (x & 7) as usize;
+    let align = 32usize << ((x >> 8) % 8);
+    let size = match (x >> 16) & 3 {
+        0 => 1 + ((x >> 20) % 512) as usize,
+        1 => align * (1 + ((x >> 20) % 4) as usize) + ((x >> 40) % 40) as usize,
+        _ => 1 + ((x >> 20) % 16384) as usize,
+    };
+    for (size, align) in [(pad, 8usize), (size, align)] {
+        let p = h.alloc(size, align);
+        st.calls += 1;
+        if p.is_null() || (p as usize) & (align - 1) != 0 {
+            st.failed += 1;
+            continue;
+        }
+        p.write_volatile(0xA7);
+        p.add(size - 1).write_volatile(0xA7);
+        *live += size;
+        st.churned += size;
+        slots.push(Slot { p, size, align });
+    }
+    st.peak_live = st.peak_live.max(*live);
+}
+
 /// Allocation half of a repetition: everything in `plan` is allocated (and, for ladders, grown
 /// and shrunk by realloc). Live blocks are appended to `slots`.
 pub unsafe fn rep_allocate<H: Heap>(h: &mut H, shape: Shape, plan: &[Item], slots: &mut Vec<Slot>, st: &mut RepStats) {
@@ -248,6 +290,34 @@ pub unsafe fn rep_allocate<H: Heap>(h: &mut H, shape: Shape, plan: &[Item], slot
             st.churned += it.size;
             st.peak_live = st.peak_live.max(it.size);
             h.free(p, it.size, it.align);
+        }
+        return;
+    }
+    if shape == Shape::AlignRand {
+        let round = ALIGNRAND_ROUND.fetch_add(1, core::sync::atomic::Ordering::Relaxed);
+        let mut r = Prng::new(plan.first().map_or(1, |i| i.size as u64) ^ round.wrapping_mul(0xD6E8_FEB8_6659_FD93));
+        let mut live = 0usize;
+        let first = slots.len();
+        for _ in 0..plan.len() {
+            alignrand_pair(h, &mut r, slots, st, &mut live);
+        }
+        // a random half goes (pads and blocks alike: holes of every size next to live neighbours) ...
+        let mut freed = 0usize;
+        let mut i = first;
+        while i < slots.len() {
+            if r.next() & 1 == 0 {
+                let s = slots.swap_remove(i);
+                h.free(s.p, s.size, s.align);
+                st.calls += 1;
+                live -= s.size;
+                freed += 1;
+            } else {
+                i += 1;
+            }
+        }
+        // ... and as many pairs come again, now served from the holes
+        for _ in 0..freed / 2 {
+            alignrand_pair(h, &mut r, slots, st, &mut live);
         }
         return;
     }
